@@ -10,6 +10,7 @@ import NngModel.Proofs.WsRules
 import NngModel.Proofs.WsReasm
 import NngModel.Proofs.HttpChunk
 import NngModel.Proofs.HttpChunkSteps
+import NngModel.Proofs.HttpChunkRound
 import NngModel.Proofs.Base64
 import NngModel.Model.Base64
 import NngModel.Spec.Base64
@@ -182,6 +183,50 @@ theorem chunk_cut_independent (s : Chunk.St) (blocks : List Bytes) :
     ((Chunk.parse s blocks.flatten).2.2 ≠ Chunk.rvProto → (Chunk.feed s blocks 0).1 = (Chunk.parse s blocks.flatten).1) :=
   Chunk.feed_agrees_parse s blocks
 
+/-- ROUND TRIP, any segmentation.  A well-formed chunked body `encBody cs zs zext ts` — for every chunk a non-empty
+    line of hexadecimal digits (either case, leading zeros allowed) whose value is the length of its data, an
+    optional extension (`;` and printable characters), CR LF, the data, CR LF; every chunk non-empty and within the
+    limits in force when it starts (`ChunksOk`: size + 2 and the running total fit size_t, the total stays within
+    `maxsz` if that is set, the allocation succeeds); then a last-chunk `zs` of value 0 with its optional extension,
+    CR LF, any trailer lines `ts` (non-empty, printable, each with CR LF) and the final CR LF — followed by ANY
+    further bytes `more`, handed to the decoder in ANY blocks: the decoder answers NNG_OK having consumed exactly
+    the encoding (not one byte of `more`), and the entity body it holds is the concatenation of the chunk data
+    after what it held before. -/
+theorem chunk_round_trip (s : Chunk.St) (cs : List Chunk.WChunk) (zs zext more : Bytes) (ts : List Bytes) (blocks : List Bytes)
+    (hs : s.state = .init) (hz : s.size = 0) (hok : Chunk.ChunksOk s cs) (hne : zs ≠ []) (hv : Chunk.digitsVal 0 zs = some 0)
+    (hx : Chunk.ExtOk zext) (ht : ∀ L ∈ ts, L ≠ [] ∧ ∀ c ∈ L, Chunk.isPrint c = true)
+    (hb : blocks.flatten = Chunk.encBody cs zs zext ts ++ more) :
+    (Chunk.feed s blocks 0).2 = ((Chunk.encBody cs zs zext ts).length, Chunk.rvOk) ∧
+    Chunk.body (Chunk.feed s blocks 0).1 = Chunk.body s ++ (cs.map (·.data)).flatten := by
+  obtain ⟨h1, h2⟩ := Chunk.steps_encBody s cs zs zext more ts hs hz hok hne hv hx ht
+  obtain ⟨a1, a2⟩ := Chunk.feed_agrees_steps blocks s 0
+  rw [hb] at a1 a2
+  have hrv : (Chunk.feed s blocks 0).2.2 ≠ Chunk.rvProto := by
+    rw [a1, h1]; show Chunk.rvOk ≠ Chunk.rvProto; decide
+  rw [a1, a2 hrv]
+  exact ⟨h1, h2⟩
+
+/-- the same for one call of the per-block parser (nni_http_chunks_parse) on the whole encoding -/
+theorem chunk_round_trip_parse (s : Chunk.St) (cs : List Chunk.WChunk) (zs zext more : Bytes) (ts : List Bytes)
+    (hs : s.state = .init) (hz : s.size = 0) (hok : Chunk.ChunksOk s cs) (hne : zs ≠ []) (hv : Chunk.digitsVal 0 zs = some 0)
+    (hx : Chunk.ExtOk zext) (ht : ∀ L ∈ ts, L ≠ [] ∧ ∀ c ∈ L, Chunk.isPrint c = true) :
+    (Chunk.parse s (Chunk.encBody cs zs zext ts ++ more)).2 = ((Chunk.encBody cs zs zext ts).length, Chunk.rvOk) ∧
+    Chunk.body (Chunk.parse s (Chunk.encBody cs zs zext ts ++ more)).1 = Chunk.body s ++ (cs.map (·.data)).flatten := by
+  obtain ⟨h1, h2⟩ := Chunk.steps_encBody s cs zs zext more ts hs hz hok hne hv hx ht
+  obtain ⟨a1, a2⟩ := Chunk.parse_agrees_steps s (Chunk.encBody cs zs zext ts ++ more)
+  have hrv : (Chunk.parse s (Chunk.encBody cs zs zext ts ++ more)).2.2 ≠ Chunk.rvProto := by
+    rw [a1, h1]; show Chunk.rvOk ≠ Chunk.rvProto; decide
+  rw [a1, a2 hrv]
+  exact ⟨h1, h2⟩
+
+/-- the conditions are needed: a chunk that takes the body above `maxsz` is refused (`chunk_exceeds_max`); an empty size
+    line is a protocol error; so is a non-printable character (here HT) in an extension or in a trailer line -/
+theorem chunk_round_trip_needs_conditions :
+    (Chunk.parse { maxsz := 2 } [51, 13, 10, 97, 98, 99, 13, 10, 48, 13, 10, 13, 10]).2 = (2, Chunk.rvMsgSize) ∧
+    (Chunk.parse { maxsz := 0 } [13, 10, 48, 13, 10, 13, 10]).2 = (0, Chunk.rvProto) ∧
+    (Chunk.parse { maxsz := 0 } [48, 59, 9, 13, 10, 13, 10]).2 = (2, Chunk.rvProto) ∧
+    (Chunk.parse { maxsz := 0 } [48, 13, 10, 65, 9, 13, 10, 13, 10]).2 = (4, Chunk.rvProto) := by decide
+
 /-! ## base64 -/
 
 set_option maxRecDepth 8192 in
@@ -318,6 +363,20 @@ example :
   decide
 /-- blocks cut inside the size line, inside the data and inside the CRLF -/
 example : (Chunk.feed { maxsz := 0 } [[51], [13, 10, 97], [98, 99, 13], [10, 48, 13, 10, 13], [10]] 0).2 = (13, 0) := by decide
+/-- `ChunksOk` is satisfiable: chunks "abc" (size line "3", extension ";x=1") and ten bytes (size line "00A", upper
+    case with leading zeros), last-chunk "00", one trailer line "T: 1", with a limit of 13 bytes met exactly,
+    something following, cut inside everything -/
+def exChunks : List Chunk.WChunk :=
+  [{ digits := [51], ext := [59, 120, 61, 49], data := [97, 98, 99] }, { digits := [48, 48, 65], data := [1, 2, 3, 4, 5, 6, 7, 8, 9, 10] }]
+theorem exChunks_ok : Chunk.ChunksOk { maxsz := 13 } exChunks :=
+  ⟨by decide, by decide, Or.inr ⟨[120, 61, 49], rfl, by decide⟩, ⟨by decide, by decide, by decide, by decide, by decide⟩,
+   by decide, by decide, Or.inl rfl, ⟨by decide, by decide, by decide, by decide, by decide⟩, trivial⟩
+example :
+    Chunk.body (Chunk.feed { maxsz := 13 } [[51, 59, 120], [61, 49, 13], [10, 97, 98], [99, 13, 10, 48],
+      [48, 65, 13, 10, 1, 2, 3, 4, 5, 6, 7, 8, 9, 10, 13], [10, 48, 48, 13, 10, 84, 58], [32, 49, 13, 10, 13], [10, 71, 69, 84]] 0).1 =
+      [97, 98, 99, 1, 2, 3, 4, 5, 6, 7, 8, 9, 10] :=
+  (chunk_round_trip { maxsz := 13 } exChunks [48, 48] [] [71, 69, 84] [[84, 58, 32, 49]] _ rfl rfl exChunks_ok (by decide) (by decide)
+    (Or.inl rfl) (by decide) (by decide)).2
 example : Base64.encode [77, 97, 110] 5 = some [84, 87, 70, 117] := by decide
 example : Base64.decode [84, 87, 70, 117] 3 = some [77, 97, 110] := by decide
 /-- both padding cases of the round trip -/
